@@ -171,7 +171,12 @@ Step ==
               LET x == D[e.d] o == D[e.o] IN
               /\ IF model.has = "t" /\ ~(ToSet(e.raw.s2i) = ToSet(model.merge.s2i) /\ e.raw.next = model.merge.next)
                    THEN PrintT(<<"MODELDIFF", run, "merge">>) ELSE TRUE
-              /\ IF ~Compatible(x.enc, o.enc) THEN Skip("dictionaries-do-not-agree")
+              \* outside merge's precondition the result need not be a bijection, but the receiver's own answers
+              \* (both maps keep their entries: or_insert) must survive - "identifiers handed out earlier never change"
+              /\ IF ~Compatible(x.enc, o.enc)
+                   THEN IF x.enc \subseteq ToSet(e.raw.s2i) /\ Flip(x.enc) \subseteq ToSet(e.raw.i2s)
+                          THEN Skip("dictionaries-do-not-agree")
+                          ELSE Fail("merge-changed-identifier-handed-out-earlier")
                  ELSE Judge(IF ~RawLock(e.raw) THEN "maps-out-of-step"
                             ELSE IF ~MergeOK(x.enc, o.enc, ToSet(e.raw.s2i)) THEN "merged-dictionary-is-not-the-union" ELSE "",
                             e.d, [x EXCEPT !.enc = @ \cup o.enc])
@@ -179,7 +184,10 @@ Step ==
               LET x == D[e.d] o == D[e.o] IN
               /\ IF model.has = "t" /\ ~(ToSet(e.raw.qc2i) = ToSet(model.merge.qc2i) /\ e.raw.qnext = model.merge.qnext)
                    THEN PrintT(<<"MODELDIFF", run, "qmerge">>) ELSE TRUE
-              /\ IF ~Compatible(x.qenc, o.qenc) \/ ~(o.enc \subseteq x.enc) THEN Skip("quoted-stores-do-not-agree")
+              /\ IF ~Compatible(x.qenc, o.qenc) \/ ~(o.enc \subseteq x.enc)
+                   THEN IF x.qenc \subseteq ToSet(e.raw.qc2i) /\ Flip(x.qenc) \subseteq ToSet(e.raw.qi2c)
+                          THEN Skip("quoted-stores-do-not-agree")
+                          ELSE Fail("merge-changed-identifier-handed-out-earlier")
                  ELSE Judge(IF ~RawLock(e.raw) THEN "maps-out-of-step"
                             ELSE IF ~MergeOK(x.qenc, o.qenc, ToSet(e.raw.qc2i)) THEN "merged-store-is-not-the-union" ELSE "",
                             e.d, [x EXCEPT !.qenc = @ \cup o.qenc])
